@@ -172,6 +172,8 @@ def signature_family(tier):
                 for ndef in range(npos + 1):
                     for va in (0, 1):
                         for nk in range(max_kwo + 1):
+                            if not quick and nk == 3 and npos > 2:
+                                continue            # thorough: (n_pos <= 4, <= 2 kw-only) + (n_pos <= 2, 3 kw-only)
                             for kwo in itertools.product((0, 1), repeat=nk):
                                 for vk in (0, 1):
                                     specs.append({'npos': npos, 'ndef': ndef, 'va': va, 'kwo': list(kwo), 'vk': vk,
@@ -180,7 +182,8 @@ def signature_family(tier):
     specs.sort(key=lambda s: (s['npos'] + len(s['kwo']) + s['va'] + s['vk'], s['async'], s['ann'] != 'none',
                               s['dvals'] != 'int', s['ndef'] + sum(s['kwo'])))
     return specs, {'positional_or_keyword': [0, max_pos], 'defaults_on_last_d_positional': 'd in 0..n_pos',
-                   'var_positional': [0, 1], 'keyword_only': [0, max_kwo],
+                   'var_positional': [0, 1],
+                   'keyword_only': [0, max_kwo] if quick else '0..2, and 3 when n_pos <= 2',
                    'keyword_only_defaults': 'every subset', 'var_keyword': [0, 1],
                    'annotation_modes(annotations,default values)': modes, 'async': [0, 1]}
 
@@ -204,10 +207,13 @@ def metadata_family(tier):
 # ----------------------------------------------------------------------------------------------------
 # variants (how wraps is applied)
 
-def expected_forms(tier):
+EXTRA_LIMIT = 4          # thorough: two added parameters / injected+expected only for <= 4 named parameters
+
+
+def expected_forms(tier, named=0):
     forms = [('str', 1, 'none'), ('list', 1, 'none'), ('pairs_no_default', 1, 'none'),
              ('pairs', 1, 'int'), ('dict', 1, 'int'), ('pairs', 1, 'None'), ('dict', 1, 'None')]
-    if tier != 'quick':
+    if tier != 'quick' and named <= EXTRA_LIMIT:
         forms += [('list', 2, 'none'), ('pairs', 2, 'int'), ('dict', 2, 'int'), ('pairs_mixed', 2, 'int')]
     return forms
 
@@ -219,12 +225,12 @@ def variants_for(spec, names, tier, metadata_only=False):
     named = names['pos'] + names['kwo']
     for p in named:
         out.append({'api': 'wraps', 'injected': p})
-    for form, n, dflt in expected_forms(tier):
+    for form, n, dflt in expected_forms(tier, len(named)):
         out.append({'api': 'wraps', 'expected': {'form': form, 'n': n, 'default': dflt}})
     if named:
         out.append({'api': 'update_wrapper', 'injected': named[-1]})
     out.append({'api': 'update_wrapper', 'expected': {'form': 'dict', 'n': 1, 'default': 'int'}})
-    if tier != 'quick':
+    if tier != 'quick' and len(named) <= EXTRA_LIMIT:
         for p in named:
             out.append({'api': 'wraps', 'injected': p, 'expected': {'form': 'dict', 'n': 1, 'default': 'int'}})
             out.append({'api': 'wraps', 'injected': p, 'expected': {'form': 'list', 'n': 1, 'default': 'none'}})
@@ -641,7 +647,9 @@ def run(ctx):
         'ways_of_wrapping': 'wraps(f), update_wrapper(w, f); injected=[p] for every positional-or-keyword and '
                             'keyword-only p; expected as (form/number/default) '
                             + ', '.join('%s/%d/%s' % x for x in expected_forms(ctx.tier))
-                            + ('; injected=[p] combined with expected' if not ctx.quick() else ''),
+                            + ('; injected=[p] combined with expected; two added parameters and the combination '
+                               'only for functions with <= %d named parameters' % EXTRA_LIMIT
+                               if not ctx.quick() else ''),
         'metadata_functions': len(meta)})
     cov['bounds'] = bounds
     ctx.assumptions += [
